@@ -45,7 +45,7 @@ def delim1(ctx: Ctx, chk) -> None:
 def schema_hooks(ctx: Ctx):
     schema = ctx.cls(codec.SCHEMA)
     hooks = {"pre_load": [], "post_load": [], "post_dump": [], "pre_dump": []}
-    for fl in schema.methods.values():
+    for fl in schema.mro_methods().values():
         for f in fl:
             for d in f.decorator_names:
                 k = d.split("(")[0].split(".")[-1]
